@@ -249,6 +249,62 @@ def company_case(sharing, ctypes, kinds, events, vars_=("x", "t"), ns=None, with
                 params=dict(sharing=sharing, ctypes=ctypes, kinds=kinds, events=_evname(events), vars=vars_, ns=ns, with_c=with_c))
 
 
+def specialised_function_case(ctypes, events, kinds=None):
+    """the user wraps ONE function g(x, k, q) in a UserFunction and hands each condition its own specialisation
+    G.partially_evaluate(k=k_i) as data function 'f': each condition computes with its own k, the user's wrapper and the
+    first specialisation are not changed by making the second one"""
+    from torchphysics.utils.user_fun import UserFunction
+    k = len(ctypes)
+    kinds = kinds or ["fixed"] * k
+    tags = "ABC"
+    name = "share_specialised_function/%s/%s" % ("+".join(ctypes), _evname(events))
+
+    def body(env):
+        def world(idx):
+            W = build_world(env, ("x",))
+            coef = env.tensor("g_x", (1,))
+
+            def g_impl(x, k, q):
+                return (x * coef).sum(dim=-1, keepdim=True) * k + q
+
+            W.G = UserFunction(K.make_fn(["x", "k", "q"], g_impl, name="g"))
+            W.ks = [env.tensor("k%s" % tags[i], ()) for i in range(k)]
+            W.q = env.tensor("q", ())
+            W.spec = {}
+            return W
+
+        def construct(W, i):
+            W.spec[i] = W.G.partially_evaluate(k=W.ks[i])  # q stays open: a wrapper comes back
+            W.spec[i].set_default(q=W.q)
+            W.dfs = {"f": W.spec[i]}
+            return make_condition(env, W, ctypes[i], tags[i], kinds[i], "own", 2)
+
+        W = world(None)
+        conds, company = {}, {i: [] for i in range(k)}
+        for a, i in events:
+            if a == "c":
+                conds[i] = construct(W, i)
+            else:
+                company[i].append(conds[i]().reshape(-1))
+        user_wrapper_unchanged = dict(W.G.defaults) == {} and list(W.G.necessary_args) == ["x", "k", "q"]
+        alone = {}
+        for i in range(k):
+            Wi = world(i)
+            ci = construct(Wi, i)
+            alone[i] = [ci().reshape(-1) for _ in company[i]]
+        return dict(company=[company[i] for i in range(k)], alone=[alone[i] for i in range(k)], user_wrapper_unchanged=user_wrapper_unchanged)
+
+    def goals(o, L, env):
+        yield "user_wrapper_unchanged", o["user_wrapper_unchanged"]
+        for i in range(k):
+            for j, (a, b) in enumerate(zip(o["company"][i], o["alone"][i])):
+                yield "one_loss_value[%s,eval%d]" % (tags[i], j), len(a) == 1 and len(b) == 1
+                if len(a) == 1 and len(b) == 1:
+                    yield "loss_in_company_equals_loss_alone[%s,eval%d]" % (tags[i], j), L.eq(a[0], b[0])
+
+    return Case(name, body, goals, family="share_specialised_function/" + "+".join(ctypes), params=dict(ctypes=ctypes, events=_evname(events)))
+
+
 def _pristine(sn):
     """default containers must still be what the signature shows: empty dicts, Points without variables"""
     if sn[0] == "dict":
@@ -318,9 +374,11 @@ def repeat_data_case(norm, reps=3):
 # --------------------------------------------------------------------------
 
 
-def periodic_sides_case(nonper, n=2):
-    """nonper: 'default' (constructor default EmptySampler()), 'empty_static' (PointSampler.empty()), 'fixed', 'fixed_static'"""
-    name = "periodic_sides/%s/n%d" % (nonper, n)
+def periodic_sides_case(nonper, n=2, xdefault=False):
+    """nonper: 'default' (constructor default EmptySampler()), 'empty_static' (PointSampler.empty()), 'fixed', 'fixed_static';
+    xdefault: the data function declares a default for the periodic variable (def f(t, x=0.0)) -- it still has to be
+    evaluated on each side with that side's x"""
+    name = "periodic_sides/%s/n%d%s" % (nonper, n, "/x_has_default" if xdefault else "")
     has_t = nonper.startswith("fixed")
     vars_ = ("x", "t") if has_t else ("x",)
 
@@ -329,7 +387,7 @@ def periodic_sides_case(nonper, n=2):
 
         def run(lb_name, ub_name):
             model, orc = K.sym_fcn(env, "m", K.space_of(vars_, DIMS), Space({"u": 1}))
-            f = K.LinFn(env, "f", list(reversed(vars_)), DIMS)
+            f = K.LinFn(env, "f", list(reversed(vars_)), DIMS, defaults={"x": 0.0} if xdefault else None)
             lb_t, ub_t = env.tensor(lb_name, ()), env.tensor(ub_name, ())
             interval = tp.domains.Interval(Space({"x": 1}), lb_t, ub_t)
             kw = {}
@@ -463,9 +521,15 @@ def cases(tier):
         for ctype in TYPES:
             if ctype != "periodic":
                 cs.append(repeat_case(ctype, "fixed_static", reps=4))
+    # ---- one wrapped user function, specialised per condition ----------------------------------------------
+    evs = [e for e in interleavings(2)]
+    for ev in (evs if th else [evs[0], evs[-1]]):
+        cs.append(specialised_function_case(("pinn", "mean"), ev))
     # ---- periodic sides --------------------------------------------------------------------------------
     for nonper in ("default", "empty_static", "fixed", "fixed_static"):
         cs.append(periodic_sides_case(nonper))
+    for nonper in ("default", "fixed"):
+        cs.append(periodic_sides_case(nonper, xdefault=True))
     if th:
         cs.append(periodic_sides_case("fixed", n=3))
         cs.append(periodic_sides_case("fixed_static", n=1))
